@@ -803,6 +803,43 @@ pub fn drive_fixed<'b, E: Elem, B: BumpAllocatorTypedScope<'b> + Clone>(ctx: &mu
                     ms.push(m);
                 }
             }
+            K_SPLIT_SPARE => {
+                // split_at_spare (C16): initialised part + spare part, adjacent; filling the spare part and merging
+                // the two gives back one box with all elements
+                let t = op.a[0] as usize % vs.len();
+                if E::ZST || !ids_budget_ok(30) {
+                    continue;
+                }
+                let v = vs.swap_remove(t);
+                let m = ms.swap_remove(t);
+                let (len, cap) = (v.len(), v.capacity());
+                let xs = fresh_vals(ctx, cap - len);
+                let mut k = 0;
+                let out = ctx.call(&op, false, || {
+                    let (init, spare) = v.split_at_spare();
+                    let shape = (init.len(), spare.len(), unsafe { init.as_ptr().add(init.len()) } as usize == spare.as_ptr() as usize);
+                    let filled = spare.init_fill_with(|| {
+                        k += 1;
+                        E::new(xs[k - 1])
+                    });
+                    Ok((init.merge(filled), shape))
+                });
+                if let Outcome::Ok((whole, (ilen, slen, adjacent))) = out {
+                    let mut m2 = m.clone();
+                    m2.extend_from_slice(&xs);
+                    if ctx.on.c16 || ctx.on.c08 {
+                        if ilen != len || slen != cap - len || !adjacent {
+                            ctx.viol(if ctx.on.c16 { "C16/split-spare-shape" } else { "C08/split-spare-shape" }, format!("split_at_spare of len {len} capacity {cap}: parts of {ilen} and {slen} elements, adjacent: {adjacent}"));
+                        }
+                        if vals_of(&whole) != m2 {
+                            ctx.viol(if ctx.on.c16 { "C16/merge-contents" } else { "C08/conversion-contents" }, format!("split_at_spare + fill + merge: {} elements that are not the old {} + the {} new ones", whole.len(), len, cap - len));
+                        }
+                    }
+                    ctx.stats.probe("c16.split_at_spare");
+                    vs.push(FixedBumpVec::from_init(whole));
+                    ms.push(m2);
+                }
+            }
             K_FLATTEN => {
                 // into_flattened (C16): a vector of arrays becomes a vector of elements, same elements, same order,
                 // capacity = array length x old capacity
@@ -1502,7 +1539,7 @@ macro_rules! drive_mut_impl {
             }
         }
 
-        pub fn $fname<'b, E: Elem, B: MutBumpAllocatorTypedScope<'b> + BumpAllocatorCore + bump_scope::traits::BumpAllocator + TryWithMut>(ctx: &mut Ctx, bump: &mut B, min_align: usize) {
+        pub fn $fname<'b, E: Elem, B: MutBumpAllocatorTypedScope<'b> + BumpAllocatorCore + TryWithMut>(ctx: &mut Ctx, bump: &mut B, min_align: usize) {
             let mut results: Vec<(std::ptr::NonNull<[E]>, Vec<u32>)> = Vec::new();
             let mut blobs: Vec<(*const u8, Vec<u8>)> = Vec::new();
             'outer: while let Some(first) = ctx.next_op() {
@@ -1524,9 +1561,7 @@ macro_rules! drive_mut_impl {
                     // leave a bigger chunk behind an ended scope, so that later growth finds a cached next chunk
                     let n = 64 << (first.a[0] % 6);
                     heap::with(0, |h| h.begin_op(ctx.cur_op as u32 + 1, if first.fail_nth != 0 { Some(first.fail_nth) } else { None }, first.burst));
-                    bump.scoped(|s| {
-                        let _ = s.try_alloc_slice_fill(n, 0xEEu8);
-                    });
+                    bump.precache(n);
                     heap::with(0, |h| h.end_op());
                     ctx.stats.probe("arena.cached_later_chunk");
                     continue;
@@ -1711,6 +1746,16 @@ fn helper_op<'b, E: Elem, B: MutBumpAllocatorTypedScope<'b> + BumpAllocatorCore>
 pub trait TryWithMut {
     /// Ok(Ok(ptr)) value made, Ok(Err(e)) closure error, Err(()) allocation failed
     fn try_with_mut<T>(&mut self, try_: bool, f: impl FnOnce() -> Result<T, u32>) -> Result<Result<std::ptr::NonNull<T>, u32>, ()>;
+    /// leaves a bigger chunk behind an ended scope, so that later growth finds a cached next chunk
+    fn precache(&mut self, n: usize);
+}
+
+/// The trait-object carrier has neither `alloc_try_with_mut` nor `scoped`: both extras are no-ops there.
+impl TryWithMut for &mut dyn bump_scope::traits::MutBumpAllocatorCoreScope<'_> {
+    fn try_with_mut<T>(&mut self, _try: bool, _f: impl FnOnce() -> Result<T, u32>) -> Result<Result<std::ptr::NonNull<T>, u32>, ()> {
+        Err(())
+    }
+    fn precache(&mut self, _n: usize) {}
 }
 
 impl<A: BaseAllocator<S::GuaranteedAllocated>, S: BumpAllocatorSettings> TryWithMut for &mut Bump<A, S> {
@@ -1718,12 +1763,22 @@ impl<A: BaseAllocator<S::GuaranteedAllocated>, S: BumpAllocatorSettings> TryWith
         let r = if try_ { self.try_alloc_try_with_mut(f).map_err(drop)? } else { self.alloc_try_with_mut(f) };
         Ok(r.map(|b| b.into_raw()))
     }
+    fn precache(&mut self, n: usize) {
+        self.scoped(|s| {
+            let _ = s.try_alloc_slice_fill(n, 0xEEu8);
+        });
+    }
 }
 
 impl<A: BaseAllocator<S::GuaranteedAllocated>, S: BumpAllocatorSettings> TryWithMut for &mut bump_scope::BumpScope<'_, A, S> {
     fn try_with_mut<T>(&mut self, try_: bool, f: impl FnOnce() -> Result<T, u32>) -> Result<Result<std::ptr::NonNull<T>, u32>, ()> {
         let r = if try_ { self.try_alloc_try_with_mut(f).map_err(drop)? } else { self.alloc_try_with_mut(f) };
         Ok(r.map(|b| b.into_raw()))
+    }
+    fn precache(&mut self, n: usize) {
+        self.scoped(|s| {
+            let _ = s.try_alloc_slice_fill(n, 0xEEu8);
+        });
     }
 }
 
@@ -1828,10 +1883,12 @@ where
     S: BumpAllocatorSettings,
     E: Elem,
 {
-    let kind = ctx.trace.param_or("kind", 2) % 5;
+    let kind = ctx.trace.param_or("kind", 2) % 6;
     ctx.zst = E::ZST;
     ctx.rev = kind == 4;
-    let made = catch_unwind(AssertUnwindSafe(|| Bump::<A, S>::try_new_in(A::default())));
+    // without the guaranteed-allocated setting half of the runs start with an arena that owns no chunk yet
+    let unallocated = !S::GUARANTEED_ALLOCATED && ctx.trace.param_or("heap_seed", 0) & 4 != 0;
+    let made = catch_unwind(AssertUnwindSafe(|| if unallocated { Ok(Bump::<A, S>::default()) } else { Bump::<A, S>::try_new_in(A::default()) }));
     let mut bump: Bump<A, S> = match made {
         Ok(Ok(b)) => b,
         Ok(Err(_)) => {
@@ -1881,6 +1938,63 @@ where
                 drive_bumpvec::<E, _>(ctx, &&bump, &claimer)
             } else {
                 drive_bumpvec::<E, _>(ctx, &bump.as_scope(), &claimer)
+            }
+        }
+        5 => {
+            // the Copy-element entry points (plain u32 elements)
+            use crate::copyvec::drive_copy;
+            match ctx.trace.param_or("ckind", 0) % 4 {
+                0 => {
+                    let mut v: BumpVec<u32, _> = BumpVec::new_in(&bump);
+                    drive_copy(ctx, &mut v);
+                    // BumpVec::map / try_map across element layouts, on whatever state the operations left behind
+                    let hs = ctx.trace.param_or("heap_seed", 0);
+                    let try_ = ctx.faulty || hs & 1 == 1;
+                    heap::with(0, |h| h.begin_op(ctx.trace.ops.len() as u32 + 1, None, 0));
+                    let r = catch_unwind(AssertUnwindSafe(|| crate::copyvec::map_probe_on(&&bump, 1 + (hs >> 1) as usize % 9, try_)));
+                    heap::with(0, |h| h.end_op());
+                    match r {
+                        Ok(Some(m)) => {
+                            if ctx.on.c08 {
+                                ctx.viol("C08/map-contents", m);
+                            }
+                        }
+                        Ok(None) => ctx.stats.probe("copy.map_probe"),
+                        Err(p) => match classify_panic(p) {
+                            Caught::Harness(m) => harness_bug(m),
+                            Caught::Library(m) => {
+                                if ctx.on.c08 {
+                                    ctx.viol("C08/panic-mismatch", format!("BumpVec::map panicked: {m}"));
+                                }
+                            }
+                            Caught::Injected(_) => {}
+                        },
+                    }
+                }
+                1 => {
+                    let cap = 4 + ctx.trace.param_or("heap_seed", 0) as usize % 40;
+                    if let Ok(mut v) = FixedBumpVec::<u32>::try_with_capacity_in(cap, &bump) {
+                        drive_copy(ctx, &mut v);
+                    }
+                }
+                2 => {
+                    let mut v: MutBumpVec<u32, _> = MutBumpVec::new_in(&mut bump);
+                    drive_copy(ctx, &mut v);
+                }
+                _ => {
+                    let mut v: MutBumpVecRev<u32, _> = MutBumpVecRev::new_in(&mut bump);
+                    drive_copy(ctx, &mut v);
+                }
+            }
+        }
+        3 | 4 if !S::GUARANTEED_ALLOCATED => {
+            // through the trait-object allocator
+            ctx.stats.probe("carrier.dyn_mut");
+            let mut d: &mut dyn bump_scope::traits::MutBumpAllocatorCoreScope<'_> = bump.as_mut_scope();
+            if kind == 3 {
+                drive_mut::<E, _>(ctx, &mut d, S::MIN_ALIGN)
+            } else {
+                drive_mut_rev::<E, _>(ctx, &mut d, S::MIN_ALIGN)
             }
         }
         3 => {
